@@ -270,16 +270,16 @@ TASKS = {"degrees": task_degrees}
 
 def plan(tier, seed):
     t = []
-    reps = 12 if tier == "quick" else 400
-    degs = list(range(0, 41))
+    reps = 12 if tier == "quick" else 3000
+    degs = list(range(0, 41)) if tier == "quick" else list(range(0, 81))
     nsh = 14
     for s in range(nsh):
         t.append(("degrees", dict(degrees=degs[s::nsh], reps=reps, seed=seed, shard=s)))
-    big = list(range(499, 521))
-    nb = 2 if tier == "quick" else 8
+    big = list(range(499, 521)) + list(range(140, 160)) + list(range(250, 262)) + list(range(1020, 1030))
+    nb = 2 if tier == "quick" else 14
     bigsel = big if tier == "thorough" else [499, 500, 501, 520]
     for s in range(nb):
-        t.append(("degrees", dict(degrees=bigsel[s::nb], reps=2 if tier == "quick" else 6, seed=seed, shard=100 + s)))
+        t.append(("degrees", dict(degrees=bigsel[s::nb], reps=2 if tier == "quick" else 12, seed=seed, shard=100 + s)))
     return t
 
 
